@@ -104,7 +104,7 @@ def gen_case(rng, i, tier):
     root_edge = scenario == "root-edge" or rng.random() < 0.15
     origin = root + edge
     T = origin
-    m = rng.randint(1, 8)
+    m = 1 if rng.random() < 0.15 else rng.randint(1, 8)
     if scenario in ("node-on-boundary", "rho-internal", "tip-on-boundary", "tip-on-boundary-rho", "relative",
                     "removal-multi", "several-rho"):
         m = max(m, 2)
@@ -300,19 +300,28 @@ def hazards(case, table_bad):
     return hz
 
 
-PRIORITY = ["json-times-list", "json-relative_times", "removal-multi-epoch", "rho-tips-at-several-boundaries",
-            "json-removal_probability", "relative-times", "tip-on-internal-boundary"]
+# input classes in which the unchanged tree raises / returns a wrong value; within each list the
+# failure that pre-empts the others comes first
+# (relative times: the present is placed at origin^2, a wrong value, or - when that puts a node before
+# time 0 - an index error)
+RAISING = ["json-times-list", "json-relative_times", "removal-multi-epoch", "rho-tips-at-several-boundaries",
+           "relative-times"]
+WRONG_VALUE = ["json-removal_probability", "relative-times", "tip-on-internal-boundary"]
 
 
 def key_of(case, kind, table_bad, extra=None, const=False):
-    """Stable key of a failure: the input class (first applicable hazard, failures that pre-empt the
-    others first) or, outside every known class, 'plain' with the kind of failure and the entry point."""
+    """Stable key of a failure.  A failure of the kind its input class is known for is keyed by the
+    class alone ("C09:<class>"); the same class failing in another way, and every failure outside
+    the classes, carries the kind (and for plain inputs the entry point) and is therefore new."""
     if const:       # BirthDeath / BirthDeathModel: none of the skyline input classes applies
         return f"C09:{extra}" if extra else f"C09:plain:constant-model:{kind}"
     hz = hazards(case, table_bad)
-    for h in PRIORITY:
+    for h in (RAISING if kind == "raises" else WRONG_VALUE):
         if h in hz:
             return f"C09:{h}"
+    for h in RAISING[:-1] + WRONG_VALUE:
+        if h in hz:
+            return f"C09:{h}:{kind}"
     return f"C09:plain:{case['api']}:{kind}"
 
 
@@ -701,8 +710,6 @@ def run(tier, seed, replay=None):
     t0 = time.time()
     rk = {}
     for k, c in enumerate(cases):
-        if tier == "quick" and k % 2 and c["scenario"] != "reference":
-            continue
         rk[id(c)] = attempt(rk4_log_density, c)
     rep.timings["rk4"] = round(time.time() - t0, 2)
     opt_found, n_opts = ([], 0) if table is None else option_probe(table)
@@ -806,7 +813,7 @@ def run(tier, seed, replay=None):
         if id(c) in const:
             exprs.append(coq_const(c))
             index.append(("const", c))
-    res = C.run_cases(PID, HEADER, exprs, shard=max(4, len(exprs) // 32 + 1)) if exprs else []
+    res = C.run_cases(PID, HEADER, exprs, shard=max(4, len(exprs) // 16 + 1)) if exprs else []
     rep.timings["model_eval"] = round(time.time() - t0, 2)
     undefined = 0
     dist = {}
@@ -842,7 +849,7 @@ def run(tier, seed, replay=None):
             okc = close_iv(v, iv)
             if okc is None:
                 undefined += 1
-                rep.violation(key_of(c, "model-undefined", table_bad, extra, const=(what == "const")),
+                rep.violation(key_of(c, "value", table_bad, extra, const=(what == "const")),
                               f"{name} returns {v!r} where the model is undefined", dict(case=c), True)
                 continue
             compared += 1
